@@ -416,6 +416,8 @@ type RecBackend struct {
 	restoreGate map[string]chan struct{} // client id -> Restore returns only once released
 	restoreAt   map[string]bool
 	deqSeen     map[*broker.Client]bool      // first Dequeue call of the connection logged
+	pubGateConn map[string]chan struct{}     // "<id>/<n>" -> Publish calls of the processor of that one connection are held at entry
+	subAckHook  map[string]func()            // client id -> run inside the acknowledgement the backend invokes for its SUBSCRIBE, before the real one
 	deqThen     map[string]func() bool       // "<id>/<n>" -> after Closing, the held dequeue waits up to an absence window for this
 	deqGot      map[*broker.Client]int       // messages Dequeue has returned to the connection
 	setupAt     map[*broker.Client]time.Time // when Setup was entered
@@ -543,6 +545,24 @@ func (b *RecBackend) holdPublish(id string) func() {
 	}
 }
 
+// holdPublishOf: as holdPublish, for the n-th connection of the id only (its successors are not held)
+func (b *RecBackend) holdPublishOf(id string, n int) func() {
+	ch := make(chan struct{})
+	key := fmt.Sprintf("%s/%d", id, n)
+	b.mu.Lock()
+	b.pubGateConn[key] = ch
+	b.mu.Unlock()
+	var once sync.Once
+	return func() {
+		once.Do(func() {
+			b.mu.Lock()
+			delete(b.pubGateConn, key)
+			b.mu.Unlock()
+			close(ch)
+		})
+	}
+}
+
 func (b *RecBackend) atPublishGate(id string) int {
 	b.mu.Lock()
 	defer b.mu.Unlock()
@@ -647,6 +667,7 @@ func newRecBackend() *RecBackend {
 		gateOf: map[*broker.Client]string{}, authGate: map[string]chan struct{}{}, authAt: map[string]bool{}, setupGate: map[string]chan struct{}{},
 		willGate: map[string]chan struct{}{}, willAt: map[string]bool{}, tokenTimeoutFor: map[string]time.Duration{},
 		setupAt: map[*broker.Client]time.Time{}, closedAt: map[*broker.Client]time.Time{}, deqThen: map[string]func() bool{}, deqGot: map[*broker.Client]int{},
+		pubGateConn: map[string]chan struct{}{}, subAckHook: map[string]func(){},
 		pubGate: map[string]chan struct{}{}, pubAt: map[string]int{}, logPublishes: map[string]bool{}, maxKeepAliveFor: map[string]time.Duration{},
 		restoreGate: map[string]chan struct{}{}, restoreAt: map[string]bool{}, deqSeen: map[*broker.Client]bool{},
 		pubIn: map[string]int{}, pubOut: map[string]int{}, slowFirst: map[string]time.Duration{}, inPub: map[*broker.Client]int{}}
@@ -904,6 +925,9 @@ func (b *RecBackend) Publish(c *broker.Client, m *packet.Message, ack broker.Ack
 	var pg chan struct{}
 	if site != "will" {
 		pg = b.pubGate[id]
+		if pg == nil && c != nil {
+			pg = b.pubGateConn[b.gateOf[c]]
+		}
 		if pg != nil {
 			b.pubAt[id]++
 		}
@@ -946,6 +970,17 @@ func (b *RecBackend) Publish(c *broker.Client, m *packet.Message, ack broker.Ack
 func (b *RecBackend) Subscribe(c *broker.Client, subs []packet.Subscription, ack broker.Ack) error {
 	if b.inject("subscribe", c) {
 		return errInjected
+	}
+	b.mu.Lock()
+	hook := b.subAckHook[c.ID()]
+	delete(b.subAckHook, c.ID())
+	b.mu.Unlock()
+	if hook != nil && ack != nil {
+		inner := ack
+		ack = func() {
+			hook() // the backend is acknowledging the subscription: whatever it does not protect at this point can interleave now
+			inner()
+		}
 	}
 	return b.MemoryBackend.Subscribe(c, subs, ack)
 }
